@@ -316,7 +316,12 @@ pub fn run_line(line: &str) -> String {
 pub const VIOLATIONS: &[&str] = &["const-write", "const-compound", "const-incr", "rvalue-write", "rvalue-incr", "call-write", "literal-write", "out-rvalue", "out-const", "inout-literal", "arity-more", "arity-less",
     "arg-struct", "arg-void", "ret-struct", "ret-void-value", "ret-missing-value", "init-struct", "cond-struct", "binop-struct", "member-missing", "undeclared", "const-member-write", "const-param-write", "const-array-write",
     "swizzle-repeat-write", "cbuffer-write", "static-const-global-write", "out-other-scalar", "out-other-vector", "inout-other-vector", "out-wider-vector", "out-member-of-const", "out-swizzle-repeat",
-    "out-enum-for-int", "const-nested-member-write", "const-nested-array-write", "const-nested-incr", "out-nested-member-of-const", "cbuffer-nested-write", "const-array-of-struct-write", "mswz-row-out-of-range", "mswz-col-out-of-range", "mswz-pair-out-of-range", "mswz-out-arg-out-of-range", "swz-out-of-range", "index-struct", "call-non-function", "ternary-mismatch", "enum-from-int", "void-var", "unknown-type"];
+    "out-enum-for-int", "const-nested-member-write", "const-nested-array-write", "const-nested-incr", "out-nested-member-of-const", "cbuffer-nested-write", "const-array-of-struct-write", "mswz-row-out-of-range", "mswz-col-out-of-range", "mswz-pair-out-of-range", "mswz-out-arg-out-of-range", "swz-out-of-range", "index-struct", "call-non-function", "ternary-mismatch", "enum-from-int", "void-var", "unknown-type",
+    "method-out-const", "method-out-cbuffer", "method-inout-member-of-const", "method-out-rvalue", "method-out-other-scalar", "method-arity-more", "method-arity-less", "method-out-swizzle-of-const", "intrinsic-method-out-const", "intrinsic-method-out-cbuffer", "intrinsic-method-out-rvalue"];
+
+fn zm(u: u64) -> String {
+    format!("struct ZM{u} {{ int base; void rd(out int o) {{ o = base; }} void xch(int a, inout int io) {{ io += a + base; }} }};\n")
+}
 
 /// Append to the program a function that is well-typed except for one violation.
 fn inject(base: &str, kind: &str, seed: u64) -> Option<String> {
@@ -371,6 +376,18 @@ fn inject(base: &str, kind: &str, seed: u64) -> Option<String> {
         "out-member-of-const" => format!("const ZS{u} s = (ZS{u})0; zoi{u}(s.a);"),
         "out-swizzle-repeat" => format!("float2 v = float2(0, 0); zov{u}(v.xxy);"),
         "out-enum-for-int" => format!("ZE{u} e = ZA{u}; zoi{u}(e);"),
+        // the same rules at calls of struct methods and of methods of intrinsic objects (the object is an argument of its own)
+        "method-out-const" => return Some(format!("{}\n{}{}int zbad{u}() {{ const int a = 1; ZM{u} m; m.base = 0; m.rd(a); return 0; }}\n", base, pre, zm(u))),
+        "method-out-cbuffer" => return Some(format!("{}\n{}{}int zbad{u}() {{ ZM{u} m; m.base = 0; m.rd(zc{u}); return 0; }}\n", base, pre, zm(u))),
+        "method-inout-member-of-const" => return Some(format!("{}\n{}{}int zbad{u}() {{ const ZS{u} s = (ZS{u})0; ZM{u} m; m.base = 0; m.xch(5, s.a); return 0; }}\n", base, pre, zm(u))),
+        "method-out-rvalue" => return Some(format!("{}\n{}{}int zbad{u}() {{ int a = 1; ZM{u} m; m.base = 0; m.rd(a + 1); return 0; }}\n", base, pre, zm(u))),
+        "method-out-other-scalar" => return Some(format!("{}\n{}{}int zbad{u}() {{ float f = 1.0; ZM{u} m; m.base = 0; m.rd(f); return 0; }}\n", base, pre, zm(u))),
+        "method-arity-more" => return Some(format!("{}\n{}{}int zbad{u}() {{ int a = 1; ZM{u} m; m.base = 0; m.rd(a, a); return 0; }}\n", base, pre, zm(u))),
+        "method-arity-less" => return Some(format!("{}\n{}{}int zbad{u}() {{ ZM{u} m; m.base = 0; m.xch(5); return 0; }}\n", base, pre, zm(u))),
+        "method-out-swizzle-of-const" => return Some(format!("{}\n{}{}int zbad{u}() {{ const int2 c = int2(1, 2); ZM{u} m; m.base = 0; m.rd(c.y); return 0; }}\n", base, pre, zm(u))),
+        "intrinsic-method-out-const" => return Some(format!("{}\n{}RWByteAddressBuffer zrb{u};\nint zbad{u}() {{ const uint o = 0; zrb{u}.InterlockedAdd(0, 1, o); return 0; }}\n", base, pre)),
+        "intrinsic-method-out-cbuffer" => return Some(format!("{}\n{}Texture2D<float4> zt{u};\ncbuffer ZCD{u} {{ uint zw{u}; }}\nint zbad{u}() {{ uint h; zt{u}.GetDimensions(zw{u}, h); return 0; }}\n", base, pre)),
+        "intrinsic-method-out-rvalue" => return Some(format!("{}\n{}Texture2D<float4> zt{u};\nint zbad{u}() {{ uint w = 0; uint h; zt{u}.GetDimensions(w + 1, h); return 0; }}\n", base, pre)),
         "index-struct" => format!("ZS{u} s; s.a = 1; int arr[2] = {{ 1, 2 }}; int a = arr[s];"),
         "call-non-function" => "int a = 1; int b = a(2);".to_string(),
         "ternary-mismatch" => format!("ZS{u} s; s.a = 1; int a = true ? s : 1;"),
